@@ -1410,7 +1410,7 @@ func main() {
 	h.quirkCases(&caseNo)
 	nCases, nOps, nBig := 90, 22, 2
 	if run.Thorough() {
-		nCases, nOps, nBig = 1500, 40, 25
+		nCases, nOps, nBig = 6000, 40, 80
 	}
 	for i := 0; i < nBig; i++ {
 		caseNo++
